@@ -473,3 +473,78 @@ Proof.
   - intros Hin. pose proof (strictly_sorted_lt x l Hs x Hin). lia.
   - apply IH. exact (strictly_sorted_tail _ _ Hs).
 Qed.
+
+(* ------------------------------------------------------------------ (d) Features::Mask path *)
+(* the lookups a mask bit contributes: the feature of its tag, or — for vrt2 — the vert feature when the
+   language system has no vrt2 *)
+Definition contributes_mask (t : layout_table) (ls : langsys) (mask : Z) (tbl : list (Z * Z)) (k : Z) : Prop :=
+  exists bit tag idx, In (bit, tag) tbl /\ Z.testbit mask bit = true /\ In k idx /\
+    (find_langsys_feature t ls tag = Ok (Some idx) \/
+     (find_langsys_feature t ls tag = Ok None /\ tag = TAG_MASK_FALLBACK_FROM /\
+      find_langsys_feature t ls TAG_MASK_FALLBACK_TO = Ok (Some idx))).
+
+Lemma build_lookups_default_spec t ls mask : forall tbl mp mp',
+  build_lookups_default t ls mask tbl mp = Ok mp' -> strictly_sorted (keys mp) ->
+  strictly_sorted (keys mp') /\
+  (forall k, In k (keys mp') <-> In k (keys mp) \/ contributes_mask t ls mask tbl k).
+Proof.
+  induction tbl as [|[bit tag] tbl IH]; intros mp mp' H Hs; cbn [build_lookups_default] in H.
+  - inversion H; subst. split; [exact Hs|]. intros k. split; [tauto|].
+    intros [Hk|(b & tg & idx & [] & _)]. exact Hk.
+  - assert (Hskip : forall mp1, build_lookups_default t ls mask tbl mp1 = Ok mp' -> strictly_sorted (keys mp1) ->
+              (forall k, In k (keys mp1) <-> In k (keys mp) \/
+                 (exists idx, In k idx /\ Z.testbit mask bit = true /\
+                    (find_langsys_feature t ls tag = Ok (Some idx) \/
+                     (find_langsys_feature t ls tag = Ok None /\ tag = TAG_MASK_FALLBACK_FROM /\
+                      find_langsys_feature t ls TAG_MASK_FALLBACK_TO = Ok (Some idx))))) ->
+              strictly_sorted (keys mp') /\
+              (forall k, In k (keys mp') <-> In k (keys mp) \/ contributes_mask t ls mask ((bit, tag) :: tbl) k)).
+    { intros mp1 Hb Hs1 Hk1. destruct (IH mp1 mp' Hb Hs1) as [S1 S2]. split; [exact S1|].
+      intros k. rewrite S2, Hk1. split.
+      - intros [[Hk|(idx & Hin & Hbit & Hf)]|(b & tg & idx & Hin & Hbit & Hki & Hf)].
+        + left; exact Hk.
+        + right. exists bit, tag, idx. repeat split; try assumption. left; reflexivity.
+        + right. exists b, tg, idx. repeat split; try assumption. right; exact Hin.
+      - intros [Hk|(b & tg & idx & [Heq|Hin] & Hbit & Hki & Hf)].
+        + left; left; exact Hk.
+        + inversion Heq; subst b tg. left; right. exists idx. repeat split; assumption.
+        + right. exists b, tg, idx. repeat split; assumption. }
+    destruct (Z.testbit mask bit) eqn:Eb.
+    + destruct (find_langsys_feature t ls tag) as [[idx|]|e| |] eqn:Ef; cbn [bind] in H; try discriminate.
+      * apply (Hskip (bt_extend idx tag mp) H (bt_extend_sorted idx tag mp Hs)).
+        intros k. rewrite bt_extend_keys_in. split.
+        -- intros [Hk|Hk]; [right; exists idx; repeat split; try assumption; left; reflexivity|left; exact Hk].
+        -- intros [Hk|(idx' & Hin & _ & [Hf|(Hf & _)])]; [right; exact Hk| |congruence].
+           inversion Hf; subst idx'. left; exact Hin.
+      * destruct (tag =? TAG_MASK_FALLBACK_FROM) eqn:Et.
+        -- destruct (find_langsys_feature t ls TAG_MASK_FALLBACK_TO) as [[idx|]|e| |] eqn:Ef2; cbn [bind] in H; try discriminate.
+           ++ apply (Hskip (bt_extend idx TAG_MASK_FALLBACK_TO mp) H (bt_extend_sorted idx _ mp Hs)).
+              intros k. rewrite bt_extend_keys_in. split.
+              ** intros [Hk|Hk]; [|left; exact Hk]. right. exists idx. repeat split; try assumption.
+                 right. repeat split; lia.
+              ** intros [Hk|(idx' & Hin & _ & [Hf|(_ & _ & Hf)])]; [right; exact Hk|congruence|].
+                 inversion Hf; subst idx'. left; exact Hin.
+           ++ apply (Hskip mp H Hs). intros k. split; [tauto|].
+              intros [Hk|(idx' & _ & _ & [Hf|(_ & _ & Hf)])]; [exact Hk|congruence|congruence].
+        -- apply (Hskip mp H Hs). intros k. split; [tauto|].
+           intros [Hk|(idx' & _ & _ & [Hf|(_ & Ht & _)])]; [exact Hk|congruence|lia].
+    + apply (Hskip mp H Hs). intros k. split; [tauto|].
+      intros [Hk|(idx' & _ & Hbit & _)]; [exact Hk|discriminate].
+Qed.
+
+(* Features::Mask: the list gsub_apply_default walks is strictly increasing in the lookup index (each lookup once,
+   however many enabled features list it) and holds exactly the lookups of the enabled features the language
+   system resolves *)
+Theorem mask_lookups_applied_in_list_order : forall t script lang mask lks,
+  lookups_for_mask t script lang mask = Ok lks ->
+  strictly_sorted (map fst lks) /\
+  (forall s ls, find_script_or_default t script = Some s -> find_langsys_or_default s lang = Some ls ->
+     forall k, In k (map fst lks) <-> contributes_mask t ls mask FEATURE_MASKS k).
+Proof.
+  intros t script lang mask lks H. unfold lookups_for_mask in H.
+  destruct (find_script_or_default t script) as [s|]; [|inversion H; subst; split; [exact I|intros s0 ls0 Hs; discriminate Hs]].
+  destruct (find_langsys_or_default s lang) as [ls|] eqn:El;
+    [|inversion H; subst; split; [exact I|intros s0 ls0 Hs Hl; inversion Hs; subst s0; rewrite El in Hl; discriminate Hl]].
+  destruct (build_lookups_default_spec t ls mask FEATURE_MASKS [] lks H I) as [S1 S2].
+  split; [exact S1|]. intros s0 ls0 Hs Hl k. inversion Hs; subst s0. rewrite El in Hl. inversion Hl; subst ls0. rewrite (S2 k). cbn [keys map In]. tauto.
+Qed.
